@@ -445,8 +445,25 @@ func rangeFact(t types.Type, x string) string {
 // ---------------------------------------------------------------------------
 // Heap variable names
 
+var structCanon = map[*types.Struct]string{}
+
+// canonType: named struct types declared as `type proof Proof` share one underlying struct and therefore one
+// set of field heaps (conversions between them are free in Go)
+func canonType(root types.Type) string {
+	if st, ok := root.Underlying().(*types.Struct); ok {
+		if _, named := types.Unalias(root).(*types.Named); named {
+			if c, ok := structCanon[st]; ok {
+				return c
+			}
+			structCanon[st] = typeKey(root)
+			return structCanon[st]
+		}
+	}
+	return typeKey(root)
+}
+
 func heapField(root types.Type, path string) string {
-	return "F:" + typeKey(root) + path
+	return "F:" + canonType(root) + path
 }
 
 var heapValType = map[string]types.Type{}
@@ -545,9 +562,10 @@ func (fc *FnCtx) regVar(name, sort string) {
 }
 
 type frameInfo struct {
-	pre   string
-	alloc string
-	exc   []string
+	pre     string
+	alloc   string
+	exc     []string
+	partial map[string][]string // rows of which only some elements are written in the loop
 }
 
 var reBoundVar = regexp.MustCompile(`qv\d+x_`)
@@ -566,6 +584,9 @@ func (fc *FnCtx) noteRead(term, row string) {
 		return
 	}
 	fc.noted[key] = true
+	if name := fc.heapNameOf(term); name != "" && !strings.HasPrefix(fc.varSort[name], "(Array Int (Array") {
+		fc.closedGround(term, name, sSel(term, row), row)
+	}
 	if info, ok := fc.frames[term]; ok {
 		conds := []string{sApp("isold", row, info.alloc)}
 		for _, e := range info.exc {
@@ -579,6 +600,20 @@ func (fc *FnCtx) noteRead(term, row string) {
 	}
 }
 
+// heapNameOf recovers the heap variable name from a version term like |F:pkg.T.f!12|
+func (fc *FnCtx) heapNameOf(term string) string {
+	t := strings.Trim(term, "|")
+	i := strings.LastIndex(t, "!")
+	if i < 0 {
+		return ""
+	}
+	name := t[:i]
+	if _, ok := fc.varSort[name]; ok {
+		return name
+	}
+	return ""
+}
+
 // rd reads row 'row' of heap variable 'name' in state st
 func (fc *FnCtx) rd(st *State, name, row string) string {
 	t := fc.get(st, name)
@@ -590,10 +625,43 @@ func (fc *FnCtx) rd(st *State, name, row string) string {
 	return v
 }
 
+// noteRead2: element-level frame instances for rows that a loop writes only at loop-invariant indices
+func (fc *FnCtx) noteRead2(term, row, idx string) {
+	if reBoundVar.MatchString(row) || reBoundVar.MatchString(idx) {
+		return
+	}
+	key := term + "@" + row + "@" + idx
+	if fc.noted[key] {
+		return
+	}
+	if fc.noted == nil {
+		fc.noted = map[string]bool{}
+	}
+	fc.noted[key] = true
+	if name := fc.heapNameOf(term); name != "" {
+		fc.closedGround(term, name, sSel(sSel(term, row), idx), row+"@"+idx)
+	}
+	if info, ok := fc.frames[term]; ok {
+		for prow, idxs := range info.partial {
+			var cs []string
+			cs = append(cs, sEq(row, prow))
+			for _, ix := range idxs {
+				cs = append(cs, sNot(sEq(idx, ix)))
+			}
+			fc.permFact(sImp(sAnd(cs...), sEq(sSel(sSel(term, row), idx), sSel(sSel(info.pre, row), idx))))
+		}
+		fc.noteRead2(info.pre, row, idx)
+	}
+	for _, p := range fc.parents[term] {
+		fc.noteRead2(p, row, idx)
+	}
+}
+
 // rd2 reads element idx of row 'row' of a two-level heap
 func (fc *FnCtx) rd2(st *State, name, row, idx string) string {
 	t := fc.get(st, name)
 	fc.noteRead(t, row)
+	fc.noteRead2(t, row, idx)
 	v := sSel(sSel(t, row), idx)
 	fc.closedGround(t, name, v, row+"@"+idx)
 	return v
@@ -757,25 +825,29 @@ func (e *Engine) srcExpr(fn *ssa.Function, pos token.Pos) string {
 type edgeKey struct{ from, to int }
 
 type Frame struct {
-	fc        *FnCtx
-	fn        *ssa.Function
-	env       map[ssa.Value]Val
-	reach     map[int]string // block index -> reach term
-	exit      map[int]*State // block exit states
-	edgeCnd   map[edgeKey]string
-	entryG    string
-	inlined   bool
-	prefix    string            // obligation name prefix for inlined frames
-	loops     map[int]*loopInfo // header block index -> info
-	loopOrd   map[int]int
-	rets      []retSite
-	pre       *State // state at entry (for old())
-	params    map[string]Val
-	depth     int
-	contract  *Contract
-	callCount map[string]int
-	deferred  []*ssa.Defer
-	propsList []string
+	fc          *FnCtx
+	fn          *ssa.Function
+	env         map[ssa.Value]Val
+	reach       map[int]string // block index -> reach term
+	exit        map[int]*State // block exit states
+	edgeCnd     map[edgeKey]string
+	entryG      string
+	inlined     bool
+	prefix      string            // obligation name prefix for inlined frames
+	loops       map[int]*loopInfo // header block index -> info
+	loopOrd     map[int]int
+	rets        []retSite
+	pre         *State // state at entry (for old())
+	params      map[string]Val
+	depth       int
+	contract    *Contract
+	callCount   map[string]int
+	deferred    []*ssa.Defer
+	propsList   []string
+	curBlock    *ssa.BasicBlock
+	parent      *Frame
+	parentBlock *ssa.BasicBlock
+	loopCtxs    map[int]*loopCtx
 }
 
 type retSite struct {
